@@ -36,4 +36,9 @@ theorem files31 : GenV31.hook_decls = ["zz_verif_hooks.go:func VerifBytes", "zz_
 /-- which function mentions which package-level table or pool (the `error` sentinels aside): nothing else in the package —
     no `Error()` method, initialiser or untranslated helper — can read or write them, whatever aliasing it might use -/
 theorem uses31 : GenV31.pkg_var_uses = [] := by decide
+/-- the only pre-sized buffer is `Vector`'s (its capacity is pinned by `C17.cap_eq_lenVec31`; a run-time capacity anywhere else
+    would be an unmodelled panic source), the only mention of package `unsafe` is `Vector`'s string conversion, and the hooks file is
+    byte for byte the committed one -/
+theorem buffers31 : GenV31.pkg_presized = ["CVSS31.Vector"] ∧ GenV31.pkg_unsafe_all = ["CVSS31.Vector:unsafe.Pointer"] ∧
+    GenV31.hook_sha = ["zz_verif_hooks.go:08a0f61bf7889999"] := by decide
 end StateTie
